@@ -28,31 +28,62 @@ pub struct CrashArgs {
 }
 
 /// content of every keyspace of a recovered image: name -> model values per key (scan and point)
+fn project_open(db: &fjall::Database, conc: &Concretizer, nkeys: u64, probe: Option<&[u8]>) -> Result<BTreeMap<String, (Vec<u64>, Vec<u64>)>, String> {
+    let mut out = BTreeMap::new();
+    for name in db.list_keyspace_names() {
+        let k = db
+            .keyspace(&name, KeyspaceCreateOptions::default)
+            .map_err(|e| format!("keyspace({name}) failed: {e:?}"))?;
+        let mut point = vec![];
+        for i in 1..=nkeys {
+            let v = k.get(conc.key(i)).map_err(|e| format!("get failed: {e:?}"))?;
+            point.push(v.map_or(0, |b| conc.unval(&b)));
+        }
+        let mut scan = vec![0u64; nkeys as usize];
+        let keys: Vec<Vec<u8>> = (1..=nkeys).map(|i| conc.key(i)).collect();
+        for g in k.iter() {
+            let (kb, v) = g.into_inner().map_err(|e| format!("iter failed: {e:?}"))?;
+            if probe.is_some_and(|p| p == &kb[..]) {
+                continue;
+            }
+            match keys.iter().position(|x| x[..] == kb[..]) {
+                Some(i) => scan[i] = conc.unval(&v),
+                None => return Err(format!("recovered a key that was never written: {:?}", kb)),
+            }
+        }
+        out.insert(name.to_string(), (point, scan));
+    }
+    Ok(out)
+}
+
+/// Recovers an image with the real code and projects it.  Then - the image being a scratch copy -
+/// a probe key is written to every keyspace, the database is closed and opened once more: the
+/// probe must be there and nothing else may have changed (a recovery that leaves the journal in
+/// a state where later appends are lost shows up here).
 fn project_image(dir: &Path, variant: &Variant, conc: &Concretizer, nkeys: u64) -> Result<BTreeMap<String, (Vec<u64>, Vec<u64>)>, String> {
     let r = std::panic::catch_unwind(std::panic::AssertUnwindSafe(|| -> Result<_, String> {
-        let db = open_db(dir, variant, conc).map_err(|e| format!("open failed: {e:?}"))?;
-        let mut out = BTreeMap::new();
-        for name in db.list_keyspace_names() {
-            let k = db
-                .keyspace(&name, KeyspaceCreateOptions::default)
-                .map_err(|e| format!("keyspace({name}) failed: {e:?}"))?;
-            let mut point = vec![];
-            for i in 1..=nkeys {
-                let v = k.get(conc.key(i)).map_err(|e| format!("get failed: {e:?}"))?;
-                point.push(v.map_or(0, |b| conc.unval(&b)));
+        let probe: Vec<u8> = b"\xffprobe-after-recovery".to_vec();
+        let first = {
+            let db = open_db(dir, variant, conc).map_err(|e| format!("open failed: {e:?}"))?;
+            let first = project_open(&db, conc, nkeys, None)?;
+            for name in db.list_keyspace_names() {
+                let k = db.keyspace(&name, KeyspaceCreateOptions::default).map_err(|e| format!("keyspace({name}) failed: {e:?}"))?;
+                k.insert(&probe, b"p").map_err(|e| format!("write after recovery failed: {e:?}"))?;
             }
-            let mut scan = vec![0u64; nkeys as usize];
-            let keys: Vec<Vec<u8>> = (1..=nkeys).map(|i| conc.key(i)).collect();
-            for g in k.iter() {
-                let (kb, v) = g.into_inner().map_err(|e| format!("iter failed: {e:?}"))?;
-                match keys.iter().position(|x| x[..] == kb[..]) {
-                    Some(i) => scan[i] = conc.unval(&v),
-                    None => return Err(format!("recovered a key that was never written: {:?}", kb)),
-                }
-            }
-            out.insert(name.to_string(), (point, scan));
+            first
+        };
+        let db = open_db(dir, variant, conc).map_err(|e| format!("second open (after recovery + one write per keyspace) failed: {e:?}"))?;
+        let second = project_open(&db, conc, nkeys, Some(&probe))?;
+        if second != first {
+            return Err(format!("after recovery, one more write per keyspace and a second reopen the content changed: {first:?} -> {second:?}"));
         }
-        Ok(out)
+        for name in db.list_keyspace_names() {
+            let k = db.keyspace(&name, KeyspaceCreateOptions::default).map_err(|e| format!("keyspace({name}) failed: {e:?}"))?;
+            if k.get(&probe).map_err(|e| format!("get failed: {e:?}"))?.as_deref() != Some(&b"p"[..]) {
+                return Err(format!("a write acknowledged after recovery is missing after the next reopen (keyspace {name})"));
+            }
+        }
+        Ok(first)
     }));
     match r {
         Ok(x) => x,
@@ -241,17 +272,22 @@ pub fn run_crash(args: &CrashArgs) -> Outcome {
                 continue;
             }
             if args.power {
-                // discard journal bytes not covered by a sync
-                let synced = ctl.synced_history.get(idx).map(|x| x.1.clone()).unwrap_or_default();
+                // discard journal bytes not covered by a sync: every range written since the
+                // file's last successful fsync / fdatasync reads as zeros (the preallocated
+                // content); the split images of a write in flight lose that write as well
+                let unsynced = ctl.synced_history.get(idx).map(|x| x.1.clone()).unwrap_or_default();
                 for (_, jp) in crate::journal::journal_files(&idir) {
                     let rel = jp.file_name().unwrap().to_string_lossy().to_string();
-                    let keep = synced.get(&rel).copied().unwrap_or(0);
-                    if let Ok(f) = std::fs::OpenOptions::new().write(true).open(&jp) {
+                    if let Ok(mut f) = std::fs::OpenOptions::new().write(true).open(&jp) {
+                        use std::io::{Seek, SeekFrom, Write};
                         let len = f.metadata().map(|m| m.len()).unwrap_or(0);
-                        // journal files are created with set_len + fsync: the file itself exists
-                        // with its preallocated (zero) length; unsynced bytes read as zeros
-                        let _ = f.set_len(keep.min(len));
-                        let _ = f.set_len(len);
+                        for (off, l) in unsynced.get(&rel).cloned().unwrap_or_default() {
+                            if off < len {
+                                let n = l.min(len - off) as usize;
+                                let _ = f.seek(SeekFrom::Start(off));
+                                let _ = f.write_all(&vec![0u8; n]);
+                            }
+                        }
                     }
                 }
             }
